@@ -1,3 +1,4 @@
+#define VP_AMBIENT_ROUNDING 1 // results of this executor may not depend on the dynamic floating-point rounding mode (drv/vp.h)
 // C18 — UTF-8 codec: reference encoder written from the bit layout, round trip, prefix
 // rejection, validity predicate on arbitrary bytes in exact-size blocks, length counters.
 #include "../drv/enum.h"
@@ -129,6 +130,13 @@ static void run_case(Tape &t, Ctx &cx)
         a_str st;
         a_str_ctor(&st);
         struct D { a_str *s; ~D() { a_str_dtor(s); } } dd{&st};
+        {
+            // an empty string object that owns no block yet: no code points, no bytes consumed - both through the return value and
+            // through the out-parameter (pre-set to a value that is not the answer)
+            a_size s0 = 77;
+            a_size c0 = a_utf_len(&st, &s0);
+            VP_CHECK(cx, c0 == 0 && s0 == 0, "length:empty_string_object", "a_utf_len on a freshly constructed string returns %zu and reports %zu bytes consumed (the out-parameter was pre-set to 77)", (size_t)c0, (size_t)s0);
+        }
         unsigned k = 1 + t.u8() % 6;
         std::string expect_bytes;
         uint32_t prev = 0;
